@@ -68,12 +68,11 @@ func mpWalk(b []byte, f *Facts) {
 			if isMap {
 				units = 2 * n
 			}
-			if units > len(b)-pos {
-				if n >= 1<<20 {
-					f.BigClaim = true
-				}
-				return false
+			if units > len(b)-pos && n >= 1<<20 {
+				f.BigClaim = true
 			}
+			// (a header that announces more than the body holds does not end the walk: the server's decoder
+			// reads on until the bytes run out, and meets whatever is announced further inside)
 			if units == 0 {
 				consumed()
 				return true
